@@ -1,0 +1,73 @@
+// SPDX-FileCopyrightText: 2026 The Pion community <https://pion.ly>
+// SPDX-License-Identifier: MIT
+
+//go:build verif
+
+package nack
+
+// Container sizes of the NACK generator for the external verification harness
+// (property C12). Only compiled with the "verif" build tag.
+
+// C12ReceiveLog wraps the unexported receiveLog.
+type C12ReceiveLog struct{ l *receiveLog }
+
+// C12NewReceiveLog calls newReceiveLog.
+func C12NewReceiveLog(size uint16) (*C12ReceiveLog, error) {
+	l, err := newReceiveLog(size)
+	if err != nil {
+		return nil, err
+	}
+
+	return &C12ReceiveLog{l: l}, nil
+}
+
+// Add calls receiveLog.add.
+func (v *C12ReceiveLog) Add(seq uint16) { v.l.add(seq) }
+
+// Words returns len(packets), the number of 64-bit words of the bitmap.
+func (v *C12ReceiveLog) Words() int { return len(v.l.packets) }
+
+// C12GenSizes returns len(receiveLogs), len(nackCountLogs) and the total
+// number of per-sequence-number counters.
+func C12GenSizes(n *GeneratorInterceptor) (int, int, int) {
+	n.receiveLogsMu.Lock()
+	defer n.receiveLogsMu.Unlock()
+	inner := 0
+	for _, m := range n.nackCountLogs {
+		inner += len(m)
+	}
+
+	return len(n.receiveLogs), len(n.nackCountLogs), inner
+}
+
+// C12GenCounters returns len(nackCountLogs[ssrc]) and whether the entry exists.
+func C12GenCounters(n *GeneratorInterceptor, ssrc uint32) (int, bool) {
+	n.receiveLogsMu.Lock()
+	defer n.receiveLogsMu.Unlock()
+	m, ok := n.nackCountLogs[ssrc]
+
+	return len(m), ok
+}
+
+// C12GenMissing returns what the next tick will see as missing for ssrc.
+func C12GenMissing(n *GeneratorInterceptor, ssrc uint32) []uint16 {
+	n.receiveLogsMu.Lock()
+	defer n.receiveLogsMu.Unlock()
+	l, ok := n.receiveLogs[ssrc]
+	if !ok {
+		return nil
+	}
+	buf := make([]uint16, n.size)
+	r := l.missingSeqNumbers(n.skipLastN, buf)
+
+	return append([]uint16{}, r...)
+}
+
+// C12GenReopen re-arms the close channel after Close() so that a following
+// BindRTCPWriter starts a new ticker loop over the same state; the harness
+// uses BindRTCPWriter/Close/C12GenReopen to run whole ticks between packets.
+func C12GenReopen(n *GeneratorInterceptor) {
+	n.m.Lock()
+	defer n.m.Unlock()
+	n.close = make(chan struct{})
+}
